@@ -80,6 +80,29 @@ def _redirect_waiver(n_other, f1, f2, f3, f4, span_installed, span_fails, is_red
     return verdict is False and reason == 'filters'
 
 
+def _redirect_span_hosts(strong, code_i, target_i, span_hosts):
+    """Processor level: a page of the start host redirects to another host.  The span-hosts rule is waived for that target only with
+    strong redirects (the default); with --no-strong-redirects, and without --span-hosts, the other host is never contacted."""
+    from wpull.pipeline.session import ItemSession
+    code = pick([301, 302, 303, 307, 308], code_i)
+    target = pick(['http://other.invalid/elsewhere', 'http://example.com/next', 'http://sub.example.com/x', 'https://example.com/s'], target_i)
+
+    def answer(k, request):
+        return (code, target) if k == 0 else (200, None)
+    with nosym():
+        client = stubs.StubHTTPClient(answer=answer)
+        env = stubs.build_web(client, filters=[F.SchemeFilter(), F.SpanHostsFilter(('example.com',), enabled=span_hosts)], strong_redirects=strong)
+        env.table.add('http://example.com/start')
+        item = ItemSession(env.app, env.table.check_out(Status.todo))
+    run(env.proc.process(item))
+    hosts = [URLInfo.parse(u).hostname for u in client.urls]
+    other = [h for h in hosts if h != 'example.com']
+    hit('left-host' if other else 'stayed')
+    if other and not (strong or span_hosts):
+        return False                                    # a request to a host outside the permitted set without any waiver in force
+    return item.is_processed
+
+
 # ---------------------------------------------------------------- verdicts follow the CURRENT link record (nothing stale)
 def _verdict_tracks_record(t1, t2, maxtries, l1, l2, depth, same_rule):
     """The same URL is consulted twice with a link record that changed in between (try count after a failed attempt, depth):
@@ -491,6 +514,11 @@ def _schemes_similar_kernel(i, j):
 _FILTER_NAMES = ['Scheme', 'HTTPSOnly', 'FollowFTP', 'BackwardDomain', 'Hostname', 'Parent', 'SpanHosts', 'Directory',
                  'BackwardFilename', 'Regex']
 HARNESSES += [
+    H('redirect_span_hosts', '_redirect_span_hosts', 'strong: bool, code_i: int, target_i: int, span_hosts: bool', pre=['0 <= code_i <= 4 and 0 <= target_i <= 3'],
+      timeout={'quick': 200, 'thorough': 400}, samples=[(True, 1, 0, False), (False, 1, 0, False), (False, 0, 1, False)], need=['left-host', 'stayed'],
+      funcs=['wpull/processor/web.py:WebProcessorSession._should_fetch_reason', 'wpull/processor/rule.py:FetchRule.check_subsequent_web_request'],
+      doc='a page of the start host redirects (5 codes) to the same host, a sub-domain, https or a foreign host, with and without '
+          '--strong-redirects and --span-hosts: the foreign host is contacted only when one of the two options permits it'),
     H('option_lists', '_option_lists', 'opt_i: int, val_i: int', pre=['0 <= opt_i < %d and 0 <= val_i < %d' % (len(_LIST_OPTS), len(_LIST_VALS))],
       timeout={'quick': 200, 'thorough': 400}, samples=[(0, 1), (1, 1), (7, 3)], need=['parsed'],
       funcs=['wpull/application/options.py:AppArgumentParser._add_accept_args', 'wpull/application/tasks/rule.py:URLFiltersSetupTask._build_url_filters'],
